@@ -321,7 +321,11 @@ def header_lines(rng, rows, noise=False):
             lines.append(rng.choice(["", "  // comment", '  { "01040000", "no trailing comma", {}, "x.cpp", 1 }',
                                      '  { "", "empty pattern", {}, "x.cpp", 1 },', '  { "01040000", "four fields", {}, 1 },',
                                      '  "01040000", "no brace", {}, "x.cpp", 1,']))
-        if style == 2:
+        if noise and rng.random() < 0.12:
+            # white space of the grammar that is not a line end: a form feed or a vertical tab between the fields of an entry
+            ws = rng.choice(["\f", "\v", " \f", "\v "])
+            lines.append('  {%s"%s",%s"%s", {%s},%s"f%d.cpp", %d },' % (ws, pat, ws, fmt, params, ws, i, 100 + i))
+        elif style == 2:
             lines.append('   {  "%s"  ,  "  %s  "  ,  { %s }  ,  "f.cpp"  ,  %d  }  ,  ' % (pat, fmt, params, i))
         else:
             lines.append('  { "%s", "%s", {%s}, "f%d.cpp", %d },' % (pat, fmt, params, i, 100 + i))
